@@ -282,6 +282,35 @@ def wl_random(ctx, rng, case):
                     want.append(int.from_bytes(tmp[:8], "little"))
                 ctx.check(st(k, d) == want, "a bytes-decorator strategy returns values that are not the chain of ITS OWN function (sibling strategies from one factory alive at once)", key=k, depth=d)
         ctx.count("sibling_strategy_checks")
+    # NESTED strategies: the pure function handed to a decorator itself calls a shipped (decorator-built) strategy and another
+    # decorator-built one - a strategy must be re-entrant.  The reference uses hashlib only.
+    def md5_first(b):
+        return int.from_bytes(hashlib.md5(b).digest()[:8], "little")
+
+    def nested_bytes(key, idx=0):
+        return hashlib.sha256(b"%d|" % (H.default_md5(key, 2)[1] ^ H.default_sha256(key, 1)[0])).digest()
+
+    def nested_bytes_ref(kb):
+        second = int.from_bytes(hashlib.md5(hashlib.md5(kb).digest()).digest()[:8], "little")
+        sha = int.from_bytes(hashlib.sha256(kb).digest()[:8], "little")
+        return hashlib.sha256(b"%d|" % (second ^ sha)).digest()
+
+    nested = H.hash_with_depth_bytes(nested_bytes)
+
+    def nested_int(key, idx=0):
+        return nested(key, 2)[1] % 1000003
+
+    nested2 = H.hash_with_depth_int(nested_int)
+    for k in keys[:10]:
+        kb = gen.to_bytes(k)
+        want, tmp = [], kb
+        for idx in range(6):
+            tmp = nested_bytes_ref(tmp)
+            want.append(int.from_bytes(tmp[:8], "little"))
+        for d in (6, 2, 1, 3):
+            ctx.check(nested(k, d) == want[:d], "a strategy whose function calls other decorator-built strategies does not return the chain of its own function (re-entrancy)", key=k, depth=d)
+        ctx.check(nested2(k, 3) == nested2(k, 5)[:3] and nested2(k, 1) == [nested_int(k, 0)], "a strategy nested two levels deep is not prefix-stable / does not start with its function's value", key=k)
+        ctx.count("nested_strategy_checks")
     # a structure's hashes() equals its strategy at the structure's depth
     hname, hf = gen.pick_hash(rng, keys)
     est, rate, m, kk = gen.bloom_geometry(rng)
